@@ -856,6 +856,34 @@ def analyse_wait_helper(ctx: Ctx, h: FuncInfo) -> Optional[WaitHelper]:
                         and isinstance(n.value.func, ast.Attribute) and n.value.func.attr == "remove_root_node":
                     p_runnable = n.target.id
                     unions = True
+        if p_runnable is None:
+            # accumulate-then-merge: L (local set) collects the released roots in the loop, `param |= L` after it
+            acc = None
+            for s in done_loop.body:
+                for n in own_walk(s):
+                    if isinstance(n, ast.AugAssign) and isinstance(n.op, ast.BitOr) and isinstance(n.target, ast.Name) \
+                            and n.target.id not in params and isinstance(n.value, ast.Call) and isinstance(n.value.func, ast.Attribute) \
+                            and n.value.func.attr == "remove_root_node":
+                        acc = n.target.id
+                    if isinstance(n, ast.Call) and isinstance(n.func, ast.Attribute) and n.func.attr == "update" and isinstance(n.func.value, ast.Name) \
+                            and n.func.value.id not in params and n.args and isinstance(n.args[0], ast.Call) \
+                            and isinstance(n.args[0].func, ast.Attribute) and n.args[0].func.attr == "remove_root_node":
+                        acc = n.func.value.id
+                    if isinstance(n, ast.Assign) and isinstance(n.targets[0], ast.Name) and isinstance(n.value, ast.Call) \
+                            and isinstance(n.value.func, ast.Attribute) and n.value.func.attr == "remove_root_node":
+                        notes.append(f"released roots are assigned to '{n.targets[0].id}' inside the loop (overwritten on every iteration)")
+            if acc is not None:
+                after = h.node.body[h.node.body.index(done_loop) + 1:] if done_loop in h.node.body else []
+                for s in after:
+                    for n in own_walk(s):
+                        if isinstance(n, ast.AugAssign) and isinstance(n.op, ast.BitOr) and isinstance(n.target, ast.Name) \
+                                and n.target.id in params and dotted(n.value) == acc:
+                            p_runnable = n.target.id
+                            unions = True
+                        if isinstance(n, ast.Call) and isinstance(n.func, ast.Attribute) and n.func.attr == "update" \
+                                and dotted(n.func.value) in params and n.args and dotted(n.args[0]) == acc:
+                            p_runnable = dotted(n.func.value)
+                            unions = True
         kinds = [k for k, _ in order]
         checks = "check" in kinds
         removes = "remove" in kinds
